@@ -18,7 +18,9 @@ EXTENDS Lottery, Json, IOUtils
 Trace == ndJsonDeserialize(IOEnv.TRACE_FILE)
 CoverNames == {"Evaluate", "Package", "Solve", "Reset", "eval_noflips", "eval_flips", "authors_gt7", "authors_le7", "placeholder",
                "authors_ge_quota", "authors_lt_quota", "own_flip", "repeated_recipient", "topped_up",
-               "try_recipient", "try_non_recipient", "src_ceremony", "src_pure"}
+               "try_recipient", "try_non_recipient", "src_ceremony", "src_pure",
+               "pkg_keyless_first", "pkg_keyless_middle", "pkg_keyless_last", "pkg_keyless_several",
+               "pkg_keyless_empty", "pkg_keyless_malformed", "solve_keyless"}
 ASSUME TLCSet(2, 0) /\ TLCSet(3, <<>>) /\ TLCSet(4, [x \in CoverNames |-> 0])
 
 VARIABLES l, bad,
@@ -56,7 +58,7 @@ TPackage ==
                 ELSE PackageVerdict(cur.lay, cur.out, e.a, e.has, e.recips, ToSet(e.ext), e.pub, e.size)
        IN /\ Note(b) /\ UNCHANGED lvars
           /\ unpub' = IF e.has /\ ~e.pub THEN unpub \cup {e.a} ELSE unpub
-          /\ Cover({"Package"})
+          /\ Cover({"Package"} \cup (IF b \cap {"HarnessPackage"} = {} /\ e.has THEN PackageCover(cur.lay, e.recips) ELSE {}))
 
 TSolve ==
     /\ l <= Len(Trace) /\ Trace[l].ev = "Solve" /\ l' = l + 1
